@@ -9,6 +9,7 @@ import (
 	"os"
 	"path/filepath"
 	"regexp"
+	"runtime/debug"
 	"sort"
 	"strconv"
 	"strings"
@@ -330,6 +331,39 @@ func max64(a, b int64) int64 {
 }
 
 // Parallel runs fn(i) for i in [0,n) on up to workers goroutines.
+// Current is the run of the check this process executes (set by the command); Guard reports to it.
+var Current *Run
+
+// Guard, deferred at the top of every worker goroutine of the engines, turns a panic of the
+// harness (an assumption about the honest path that the implementation under check did not
+// meet: a must(err) on a call that has to succeed) into a reported violation instead of a
+// crashed check. The unchanged tree never panics; a tree that makes the honest path fail is
+// reported with the failing call in the message.
+func Guard() {
+	p := recover()
+	if p == nil {
+		return
+	}
+	r := Current
+	if r == nil {
+		panic(p)
+	}
+	msg := fmt.Sprint(p)
+	stack := string(debug.Stack())
+	site := ""
+	for _, l := range strings.Split(stack, "\n") {
+		if strings.Contains(l, "/harness/checks/") || strings.Contains(l, "/harness/enga/") || strings.Contains(l, "/harness/engb/") {
+			site = strings.TrimSpace(l)
+			break
+		}
+	}
+	cls := reasonRe.ReplaceAllString(msg, "#")
+	if len(cls) > 80 {
+		cls = cls[:80]
+	}
+	r.Violate(Violation{Class: "honest-path-call-fails:" + cls, Msg: fmt.Sprintf("a call the harness relies on failed: %s (at %s)", msg, site), Detail: map[string]any{"panic": msg, "site": site}}, nil)
+}
+
 func Parallel(n, workers int, fn func(i int)) {
 	if workers < 1 {
 		workers = 1
@@ -345,7 +379,10 @@ func Parallel(n, workers int, fn func(i int)) {
 				if i >= n {
 					return
 				}
-				fn(i)
+				func() {
+					defer Guard()
+					fn(i)
+				}()
 			}
 		}()
 	}
